@@ -236,6 +236,7 @@ pub fn replay(parser: &dyn Parser) {
     let mut samples: Vec<Value> = vec![];
     let mut trailing_example = Value::Null;
     let mut plans_max = 0usize;
+    let mut rich_samples = 0;
     for line in stdin_lines() {
         let v: Value = match serde_json::from_str(&line) { Ok(v) => v, Err(_) => continue };
         let wire = pct_decode(v["b"].as_str().expect("b"));
@@ -300,7 +301,10 @@ pub fn replay(parser: &dyn Parser) {
                 }
             }
         }
-        if !case_bad && samples.len() < 6 && (cases % 97 == 3 || (exp.h.contains_key(&b"x-forwarded-for"[..]) && !exp.body.is_empty() && samples.len() < 2)) {
+        // samples for the evidence: a few requests that carry a forwarded-for list together with cookies or a body, then any
+        let rich = exp.h.contains_key(&b"x-forwarded-for"[..]) && (!exp.cookies.is_empty() || !exp.body.is_empty());
+        if !case_bad && ((rich && rich_samples < 3 && cases % 7 == 0) || (samples.len() < 5 && cases % 397 == 3)) {
+            if rich { rich_samples += 1; }
             samples.push(json!({"runtime": parser.runtime(), "wire": show(&wire), "peer": v["peer"], "expected": v["exp"], "plans": plans.len()}));
         }
     }
